@@ -241,6 +241,9 @@ func isTestSignature(sign *types.Signature) bool {
 	if tname == nil {
 		return false // the only parameter isn't named, like "string"
 	}
+	if tname.Pkg() == nil {
+		return false // a universe type, like "error"
+	}
 	return tname.Pkg().Path() == "testing" && tname.Name() == "T"
 }
 
